@@ -385,6 +385,34 @@ func (P *Prog) constTable(fn *ssa.Function, pi, ri int) (map[string]string, stri
 			}
 		}
 	}
+	// the comma-ok form: `if v, ok := table[x]; ok { return v }; return D`
+	if ps := P.allPaths(fn); len(ps) == 2 {
+		var hit, miss *Path
+		var lk *Term
+		for _, p := range ps {
+			if len(p.conds) != 1 || ri >= len(p.results()) {
+				continue
+			}
+			c := p.conds[0]
+			if c.Pred.Op == "res" && c.Pred.S == "1" && len(c.Pred.Args) == 1 && c.Pred.Args[0].Op == "lookup" && c.Pred.Args[0].S == "ok" {
+				if c.Val {
+					hit, lk = p, c.Pred.Args[0]
+				} else {
+					miss = p
+				}
+			}
+		}
+		if hit != nil && miss != nil && len(lk.Args) == 2 && lk.Args[1].eq(pt) && lk.Args[0].Op == "load" && lk.Args[0].Args[0].Op == "global" &&
+			miss.conds[0].Pred.Args[0].eq(lk) && hit.results()[ri].eq(&Term{Op: "res", S: "0", Args: []*Term{lk}}) {
+			if tab, ok := P.constGlobalMap(lk.Args[0].Args[0].S); ok {
+				for k, v := range tab {
+					out[k] = v
+				}
+				out["default"] = miss.results()[ri].String()
+				return out, ""
+			}
+		}
+	}
 	for _, p := range P.allPaths(fn) {
 		if !p.feasible() {
 			continue
